@@ -304,6 +304,8 @@ func checkGenericPacker(c *Check, p *Program) {
 	}
 	buf := pack.Params[0]
 	nArms := 0
+	delegated := map[string][]string{} // arm type -> arms that hand their value to it
+	isDelegating := map[string]bool{}
 	instrsOf(pack, func(in ssa.Instruction) {
 		ta, ok := in.(*ssa.TypeAssert)
 		if !ok || !ta.CommaOk || ta.X != ssa.Value(pack.Params[1]) {
@@ -347,47 +349,72 @@ func checkGenericPacker(c *Check, p *Program) {
 				}
 			}
 		}
+		_ = retK
 		switch {
 		case w > 0:
-			got := map[int64]BV{}
-			dup := false
-			instrsOf(pack, func(x ssa.Instruction) {
-				st, ok := x.(*ssa.Store)
-				if !ok || !inArm(st.Block()) {
-					return
+			// the arm is evaluated: Pack(buffer, <boxed T>) on an abstract buffer
+			_, signedT, _ := typeWidth(ta.AssertedType, p.Arch)
+			li := &layoutInterp{p: p}
+			paths := li.run(pack, []AV{avSlice{region: "buf", off: linConst(0), len: nil, name: "buffer"}, avIface{inner: avInt{bv: bvSrc("v", int(w*8)), signed: signedT}, typ: ta.AssertedType}}, nil)
+			okArm := len(paths) == 1
+			detail := fmt.Sprintf("%d paths", len(paths))
+			if okArm {
+				pp := paths[0]
+				detail = ""
+				if len(pp.notes) > 0 || len(pp.effect) > 0 {
+					okArm, detail = false, strings.Join(append(append([]string{}, pp.notes...), pp.effect...), "; ")
 				}
-				ia, ok := st.Addr.(*ssa.IndexAddr)
-				if !ok || ia.X != ssa.Value(buf) {
-					return
+				rv, _ := pp.ret.(avInt)
+				if k, isK := rv.bv.Const(); !(isK && int64(k) == w) && !(rv.lin != nil && rv.lin.String() == fmt.Sprint(w)) {
+					okArm, detail = false, "returns "+describeAV(pp.ret)+", not "+fmt.Sprint(w)
 				}
-				k, ok := constInt(ia.Index)
-				if !ok {
-					dup = true
-					return
+				got := map[int64]BV{}
+				for _, wr := range pp.writes {
+					k, isK := int64(-1), false
+					if wr.off != nil {
+						k, isK = wr.off.IsConst()
+					}
+					n, isN := int64(0), false
+					if wr.n != nil {
+						n, isN = wr.n.IsConst()
+					}
+					if !isK || !isN || n != 1 || wr.kind != "byte" || wr.rmw {
+						okArm, detail = false, "a write that is not one plain byte at a constant offset"
+						continue
+					}
+					if _, dup := got[k]; dup {
+						okArm, detail = false, fmt.Sprintf("byte %d is written twice", k)
+					}
+					got[k] = wr.bv
 				}
-				if _, has := got[k]; has {
-					dup = true
+				if okArm && int64(len(got)) != w {
+					okArm, detail = false, fmt.Sprintf("%d bytes written", len(got))
 				}
-				ev := &BitEval{P: p, Env: map[ssa.Value]BV{val: bvSrc("v", int(w*8))}}
-				alts := ev.Eval(st.Val)
-				if len(alts) == 1 && alts[0].V != nil {
-					got[k] = alts[0].V
-				} else {
-					got[k] = bvTop(8)
-				}
-			})
-			okArm := !dup && int64(len(got)) == w && retK == w
-			detail := ""
-			for k := int64(0); k < w && okArm; k++ {
-				want := make(BV, 8)
-				for i := 0; i < 8; i++ {
-					want[i] = bit{K: bsrc, Src: "v", Idx: int(8*(w-1-k)) + i}
-				}
-				if !got[k].Equal(want) {
-					okArm = false
-					detail = fmt.Sprintf("byte %d is [%s], big-endian layout wants [%s]", k, got[k], want)
+				for k := int64(0); k < w && okArm; k++ {
+					want := make(BV, 8)
+					for i := 0; i < 8; i++ {
+						want[i] = bit{K: bsrc, Src: "v", Idx: int(8*(w-1-k)) + i}
+					}
+					if !got[k].Equal(want) {
+						okArm = false
+						detail = fmt.Sprintf("byte %d is [%s], big-endian layout wants [%s]", k, got[k], want)
+					}
 				}
 			}
+			// an arm may hand the value to another arm of the packer (int16 -> uint16), not to itself and not in a chain
+			instrsOf(pack, func(x ssa.Instruction) {
+				call, ok := x.(*ssa.Call)
+				if !ok || !inArm(call.Block()) || call.Common().StaticCallee() != pack {
+					return
+				}
+				mi, isMI := call.Common().Args[1].(*ssa.MakeInterface)
+				if !isMI || types.Identical(mi.X.Type(), ta.AssertedType) || primWidth(mi.X.Type()) != w {
+					okArm, detail = false, "the arm calls the packer again with an item that is not a same-width value of another primitive type"
+					return
+				}
+				delegated[typeName(mi.X.Type())] = append(delegated[typeName(mi.X.Type())], tname)
+				isDelegating[tname] = true
+			})
 			c.Decide(okArm, "C15.generic", "util.Pack arm "+tname, pos, fmt.Sprintf("writes bytes 0..%d big-endian and returns %d", w-1, w), "the "+tname+" case does not write exactly its "+fmt.Sprint(w)+" bytes big-endian and return that width: "+detail)
 		case isByteSlice(ta.AssertedType):
 			okArm := false
@@ -416,6 +443,9 @@ func checkGenericPacker(c *Check, p *Program) {
 		}
 	})
 	c.Floor("C15.generic", "arms of util.Pack", nArms, 10)
+	for target, from := range delegated {
+		c.Decide(!isDelegating[target], "C15.generic", "util.Pack arm "+target+" is written out", p.Pos(pack.Pos()), "arms "+strings.Join(from, ", ")+" hand over to an arm that writes the bytes itself", "arm "+target+" receives values from "+strings.Join(from, ", ")+" and hands them on again: the evaluation of those arms assumed what it should show")
+	}
 
 	// PackSome: offset += Pack(buffer[offset:], item) over all items
 	if f := p.Func("knx/util", "PackSome"); f != nil {
